@@ -12,6 +12,10 @@ pub enum Case {
     Block { key: String, block: String },
     /// sequence of ops: 0 enc(b0), 1 enc(b1), 2 dec(b0), 3 dec(b1), 4..6 rebuild the cipher with key variant 0..2, 7 decrypt / 8 encrypt of a 15-byte block (must fail and change nothing)
     History { key: String, seq: Vec<u16> },
+    /// the object is built on one thread and used on fresh threads that have never built a cipher themselves
+    CrossThread { key: String },
+    /// key / block lengths that equal 16 modulo 256 or 65536 must be refused like any other wrong length
+    AliasLength { len: usize },
 }
 
 fn std_key_bytes() -> [u8; 16] {
@@ -66,6 +70,39 @@ fn eval(ctx: &Ctx, case: &Case) {
                     Guard::Done(Ok(v)) if v[..] == b[..] => {}
                     other => ctx.violation("Sm4Cipher", &format!("roundtrip/{}", name), format!("key={} block={} -> {:?}", key, block, other.map_dbg()), serde_json::to_value(case).unwrap()),
                 }
+            }
+        }
+        Case::CrossThread { key } => {
+            let k = h16(key);
+            let b = h16("00112233445566778899aabbccddeeff");
+            ctx.calls(5);
+            ctx.trace();
+            // built here (a thread that has built ciphers before or not, as the driver has it) ...
+            let Guard::Done(Ok(c)) = guard(|| gm_sm4::Sm4Cipher::new(&k)) else { return };
+            let c = std::sync::Arc::new(c);
+            let want_e = refmodels::sm4::encrypt_block(&k, &b);
+            let want_d = refmodels::sm4::decrypt_block(&k, &b);
+            // ... used on two brand-new threads: one gets a clone moved in, the other shares it through an Arc
+            let c_moved = (*c).clone();
+            let r1 = std::thread::spawn(move || guard(|| (c_moved.encrypt(&b), c_moved.decrypt(&b)))).join();
+            let c_shared = c.clone();
+            let r2 = std::thread::spawn(move || guard(|| (c_shared.decrypt(&b), c_shared.encrypt(&b)))).join();
+            let ok1 = matches!(&r1, Ok(Guard::Done((Ok(e), Ok(d)))) if e[..] == want_e[..] && d[..] == want_d[..]);
+            let ok2 = matches!(&r2, Ok(Guard::Done((Ok(d), Ok(e)))) if e[..] == want_e[..] && d[..] == want_d[..]);
+            if ok1 && ok2 {
+                ctx.outcome("ok/cross-thread");
+            } else {
+                ctx.violation("Sm4Cipher", "wrong-result-on-another-thread", format!("key={} moved-ok={} shared-ok={}", key, ok1, ok2), serde_json::to_value(case).unwrap());
+            }
+        }
+        Case::AliasLength { len } => {
+            let data = vec![0x42u8; *len];
+            ctx.calls(3);
+            let k16 = h16("0123456789abcdeffedcba9876543210");
+            let r = guard(|| (gm_sm4::Sm4Cipher::new(&data).is_err(), gm_sm4::Sm4Cipher::new(&k16).map(|c| (c.encrypt(&data).is_err(), c.decrypt(&data).is_err()))));
+            match r {
+                Guard::Done((true, Ok((true, true)))) => ctx.outcome("ok/alias-length-refused"),
+                other => ctx.violation("Sm4Cipher", "wrong-length-not-refused", format!("len={} -> {}", len, other.map_dbg()), serde_json::to_value(case).unwrap()),
             }
         }
         Case::History { key, seq } => {
@@ -181,7 +218,7 @@ pub fn replay(ctx: &Arc<Ctx>, v: &Value) {
 
 pub fn run(ctx: &Arc<Ctx>) {
     refmodels::selftest::run(&[ctx.tier.pick("sm4", "sm4long")]).unwrap_or_else(|e| ctx.machinery_error(format!("reference self-test failed: {}", e)));
-    ctx.set_rule("keys x blocks over {0^128, 1^128, 128 single-bit, 16 byte patterns, standard vector, seeded}; derived families forcing every S-box index in every byte lane of round 1 (data path) and of the first key-schedule round; all op sequences to depth 4 over {enc b0, enc b1, dec b0, dec b1, rebuild the object with the same key / a key differing in the last byte / in the first byte, a refused decrypt / encrypt of a 15-byte block, clone-use-drop the clone, continue with a clone and drop the original} (16105 histories per base key); every value of the first and of the last byte of key and block. Oracle: independent SM4 with algebraically generated S-box.");
+    ctx.set_rule("keys x blocks over {0^128, 1^128, 128 single-bit, 16 byte patterns, standard vector, seeded}; derived families forcing every S-box index in every byte lane of round 1 (data path) and of the first key-schedule round; all op sequences to depth 4 over {enc b0, enc b1, dec b0, dec b1, rebuild the object with the same key / a key differing in the last byte / in the first byte, a refused decrypt / encrypt of a 15-byte block, clone-use-drop the clone, continue with a clone and drop the original} (16105 histories per base key); every value of the first and of the last byte of key and block; objects built on one thread and used (moved / Arc-shared) on fresh threads; key and block lengths 16 + 256k, 16 + 65536 refused. Oracle: independent SM4 with algebraically generated S-box.");
     let nseed = ctx.tier.pick(4, 64);
     let keys = blocks128(ctx.seed, "c02keys", nseed);
     let blocks = blocks128(ctx.seed, "c02blocks", nseed);
@@ -223,8 +260,16 @@ pub fn run(ctx: &Arc<Ctx>) {
         key[12..16].copy_from_slice(&fk[3].to_be_bytes());
         cases.push(Case::Block { key: hex::encode(key), block: hex::encode(std_key) });
     }
+    for k in ["0123456789abcdeffedcba9876543210", "00000000000000000000000000000000", "ffffffffffffffffffffffffffffffff", "fedcba98765432100123456789abcdef"] {
+        cases.push(Case::CrossThread { key: k.into() });
+    }
+    for len in [0usize, 15, 17, 32, 16 + 256, 16 + 512, 16 + 65536, 16 + 256 * 3 + 1] {
+        cases.push(Case::AliasLength { len });
+    }
     ctx.sample(serde_json::to_value(&cases[3]).unwrap());
     ctx.sample(serde_json::to_value(&cases[cases.len() - 1]).unwrap());
+    // chunks of 1 for the cross-thread cases would be ideal; they sit at the end of the list and the chunked driver
+    // starts a fresh thread per chunk anyway
     run_cases(ctx, &cases, 64, eval);
 
     // structural coverage on the reference running in lock-step over the derived families
